@@ -522,6 +522,22 @@ func (x *Exec) evalCall(call *ast.CallExpr, st *State) []Term {
 		if se, ok := ast.Unparen(call.Fun).(*ast.SelectorExpr); ok {
 			if sel, ok := x.info.Selections[se]; ok && sel.Kind() == types.MethodVal {
 				r := x.eval(se.X, st)
+				// a method promoted from embedded fields: walk to the embedded value first
+				if idx := sel.Index(); len(idx) > 1 {
+					for _, fi := range idx[:len(idx)-1] {
+						s, stT := structOf(r.T)
+						if s == nil {
+							x.unsupported(call, "promoted method on %s", r.T)
+						}
+						f := s.Field(fi)
+						if _, isPtr := r.T.Underlying().(*types.Pointer); isPtr {
+							x.oblige(st, "nil", "", call, not(app("=", r.S, "0")))
+							r = x.define(st, f.Name(), x.loadField(st, r, stT, f))
+						} else {
+							r = x.fieldOfValue(r, f)
+						}
+					}
+				}
 				// auto address / deref
 				rsig := fn.Type().(*types.Signature)
 				want := rsig.Recv().Type()
